@@ -35,6 +35,13 @@ using std::vector;
 
 namespace Tins {
 
+#ifdef TINS_VERIF_HOOKS
+namespace Verif {
+serialize_hook_type serialize_hook = 0;
+lifetime_hook_type lifetime_hook = 0;
+}
+#endif
+
 PDU::metadata::metadata() 
 : header_size(0), current_pdu_type(PDU::UNKNOWN), next_pdu_type(PDU::UNKNOWN) {
 
@@ -49,11 +56,21 @@ PDU::metadata::metadata(uint32_t header_size, PDUType current_type, PDUType next
 
 PDU::PDU()
 : inner_pdu_(), parent_pdu_() {
+    #ifdef TINS_VERIF_HOOKS
+    if (Verif::lifetime_hook) {
+        Verif::lifetime_hook(this, Verif::LIFE_CTOR);
+    }
+    #endif
 
 }
 
 PDU::PDU(const PDU& other) 
 : inner_pdu_(), parent_pdu_() {
+    #ifdef TINS_VERIF_HOOKS
+    if (Verif::lifetime_hook) {
+        Verif::lifetime_hook(this, Verif::LIFE_COPY);
+    }
+    #endif
     copy_inner_pdu(other);
 }
 
@@ -63,6 +80,11 @@ PDU& PDU::operator=(const PDU& other) {
 }
 
 PDU::~PDU() {
+    #ifdef TINS_VERIF_HOOKS
+    if (Verif::lifetime_hook) {
+        Verif::lifetime_hook(this, Verif::LIFE_DTOR);
+    }
+    #endif
     delete inner_pdu_;
 }
 
@@ -138,11 +160,29 @@ void PDU::serialize(uint8_t* buffer, uint32_t total_sz) {
     #ifdef TINS_DEBUG
     assert(total_sz >= sz);
     #endif
+    #ifdef TINS_VERIF_HOOKS
+    if (Verif::serialize_hook && total_sz < sz) {
+        Verif::serialize_hook(Verif::SER_UNDERFLOW, this, buffer, total_sz,
+                              header_size(), trailer_size());
+    }
+    #endif
     prepare_for_serialize();
     if (inner_pdu_) {
         inner_pdu_->serialize(buffer + header_size(), total_sz - sz);
     }
+    #ifdef TINS_VERIF_HOOKS
+    if (Verif::serialize_hook) {
+        Verif::serialize_hook(Verif::SER_PRE, this, buffer, total_sz,
+                              header_size(), trailer_size());
+    }
+    #endif
     write_serialization(buffer, total_sz);
+    #ifdef TINS_VERIF_HOOKS
+    if (Verif::serialize_hook) {
+        Verif::serialize_hook(Verif::SER_POST, this, buffer, total_sz,
+                              header_size(), trailer_size());
+    }
+    #endif
 }
 
 void PDU::parent_pdu(PDU* parent) {
